@@ -1,4 +1,5 @@
 """C24 Control-flow subgraphs behave like the equivalent inlined graph - capture ownership."""
+import re
 from rulelib import *
 from facts import op_int, op_local, op_place
 import C02
@@ -26,6 +27,7 @@ def run(ctx):
     by_value(ctx, fb)
     by_ref(ctx, fb)
     loop_clone(ctx, fb)
+    loop_outputs(ctx, fb)
     C02.prepack_index(ctx, fb, 'C24.branch-cache-index')
 
 
@@ -113,3 +115,58 @@ def loop_clone(ctx, fb):
                 moved = c.args[3][0] == 'm' or has_param_origin(og, 2)
                 ctx.inst(R, 'single-use-env:' + name, moved and not has_origin_call(og, 're:take_all_inputs$'), 'outside loops the environment is moved into exactly one subgraph run (ownership enforced by the borrow checker)', c.loc())
     ctx.floor(R, 'subgraph runs in SubgraphOperator impls', n, 2)
+
+
+def loop_outputs(ctx, fb):
+    """Loop's outputs are positional ([carried deps..., scan outputs...]).  (accumulate) inside the iteration loop every
+    value of a step's scan outputs is pushed to its per-output sequence: the push is control-dependent only on the
+    iterator's own Some/None test, so no sequence is shorter than the others (a shorter or empty one is dropped by the
+    concatenation loop and shifts every later output one slot left).  (carried) the loop-carried values for the next
+    iteration are exactly the drained prefix of the step outputs."""
+    R = 'C24.loop-outputs'
+    f = None
+    for impl in fb.impls(trait='rten::operator::SubgraphOperator'):
+        if impl['self'].split('::')[-1] == 'Loop' and 'run_subgraph' in impl['items']:
+            f = fb.fn(impl['items']['run_subgraph'][1])
+    if not ctx.anchor(R, 'Loop::run_subgraph', f is not None and f.has_mir()):
+        return
+    pushes = []
+    for c in f.calls():
+        if not re.search(r'Vec::<T(, A)?>::push$', c.callee or ''):
+            continue
+        if 'Value' not in f.local_ty(op_local(c.args[0]) if op_local(c.args[0]) is not None else 0):
+            continue
+        og = f.origins(c.args[0])
+        if not any(o[0] == 'call' and re.search(r'IndexMut<.*>>::index_mut$', o[1] or '') for o in og):
+            continue
+        pushes.append(c)
+    if not ctx.anchor(R, 'scan_outputs[i].push(..)', len(pushes) == 1):
+        return
+    c = pushes[0]
+    inner = None
+    for h, body in f.loops():
+        if c.bb in body and (inner is None or len(body) < len(inner[1])):
+            inner = (h, body)
+    if not ctx.anchor(R, 'scan output extraction loop', inner is not None):
+        return
+    bad = []
+    for g in f.guards(c.bb):
+        if g.bb not in inner[1]:
+            continue
+        cd = g.cond()
+        if cd[0] == 'disc':
+            src = f.origins(('c', cd[1])) if isinstance(cd[1], list) else []
+            if any(o[0] == 'call' and re.search(r'Iterator>::next$', o[1] or '') for o in src):
+                continue
+        if cd[0] == 'cmp' and any(o[0] == 'call' and re.search(r'::len$', o[1] or '') for o in f.origins(cd[3])):
+            continue    # the bounds check of scan_outputs[i]
+        bad.append(g.describe())
+    # the cooperating site: the concatenation loop drops a sequence that is empty (written for zero iterations, where all are)
+    skips = [k for k in f.calls() if re.search(r'Vec::<T(, A)?>::is_empty$', k.callee or '') and f.in_loop(k.bb) and k.bb not in inner[1]
+             and 'Value' in f.local_ty(op_local(k.args[0]) if op_local(k.args[0]) is not None else 0)]
+    ctx.note('C24.loop-outputs: ' + ('concatenation loop skips empty sequences at %s' % ', '.join(k.loc() for k in skips) if skips else 'concatenation loop has no empty-sequence skip'))
+    if not skips:
+        bad = []
+    ctx.inst(R, 'accumulate-unconditional', not bad,
+             'each step\'s scan output is pushed to its sequence on every path through the extraction loop' if not bad else
+             'a step\'s scan output is accumulated only under %s: a sequence that stays shorter/empty is skipped by the concatenation loop, so later Loop outputs shift position' % '; '.join(bad), c.loc())
